@@ -94,13 +94,16 @@ def fault_names(family: str) -> list[str]:
 TRACK_FILTERS = {'video': r'bbb_v\d', 'audio': r'bbb_a\d', 'text': r'bbb_t\d'}
 
 
-def make_fault(name: str, nth: int, track: str | None = None):
+def make_fault(name: str, nth: int, track: str | None = None, after_refresh: int = 0):
     from harness.faults import CATALOGUE
     from harness.validator import Fault
     ent = CATALOGUE[name]
     return Fault(name=name, target=ent['target'], rewrite=ent['patch'], nth=nth, family=ent['family'],
                  min_occ=1 if 'refresh' in ent.get('needs', ()) else 0,
-                 url_filter=TRACK_FILTERS.get(track) if ent['target'] in ('init', 'media') else None)
+                 url_filter=TRACK_FILTERS.get(track) if ent['target'] in ('init', 'media') else None,
+                 # segment faults may be armed only after a number of refreshes: the nth segment served from then on is
+                 # the first (second, ...) segment that is new in the refreshed manifest
+                 min_manifests=(1 + after_refresh) if after_refresh and ent['target'] == 'media' else 0)
 
 
 # ---- locating errors -----------------------------------------------------------------------
@@ -215,7 +218,7 @@ def run_batch(args: tuple[str, list[dict]]) -> list[dict]:
     with DashApp(Path(workdir), fixtures=('bbb',)) as da:
         for s in sessions:
             da.clock.set(s['now'])
-            fault = make_fault(s['fault'], s['nth'], s.get('track')) if s.get('fault') else None
+            fault = make_fault(s['fault'], s['nth'], s.get('track'), s.get('after_refresh', 0)) if s.get('fault') else None
             url = f"http://unit.test/dash/{s['mode']}/bbb/{s['tmpl']}" + (('?' + s['query']) if s['query'] else '')
             n_exc = len(da.exceptions)
             res = V.run_session(da, url, s['mode'], s['encrypted'], s['duration'], fault=fault,
@@ -316,6 +319,14 @@ def main(tier_: str) -> int:
                                 s2 = dict(s)
                                 s2['track'] = tr
                                 sessions.append(s2)
+                                if s['live'] and CATALOGUE[nm]['target'] == 'media' and case['nth'] <= 1 and (tier_ == 'thorough' or rng.random() < 0.5):
+                                    # the same fault in the first / second segment that is new after a refresh
+                                    s3 = dict(s2)
+                                    s3['after_refresh'] = 1
+                                    q3 = [x for x in s3['query'].split('&') if x and not x.startswith('depth=')] + ['depth=30']
+                                    s3['query'] = '&'.join(q3)
+                                    s3['duration'] = 62
+                                    sessions.append(s3)
                             continue
                     sessions.append(s)
         # occurrences deep into the session (thorough): the model's nth is unbounded in the trace spec
@@ -390,7 +401,7 @@ def main(tier_: str) -> int:
             end = r['lines'][-1]
             sig_msgs = sorted({re.sub(r'\d+', 'N', m)[:70] for m in end['messages']})[:3]
             case = {'template': s['tmpl'], 'mode': s['mode'], 'query': s['query'], 'now': s['now'], 'duration': s['duration'],
-                    'track': s.get('track') or '', 'fault': s.get('fault') or 'none', 'family': s.get('family', 'none'), 'nth': s['nth'],
+                    'track': s.get('track') or '', 'after_refresh': s.get('after_refresh', 0), 'fault': s.get('fault') or 'none', 'family': s.get('family', 'none'), 'nth': s['nth'],
                     'finished': end['finished'], 'crash': end['crash_text'], 'nerr': end['nerr'], 'messages': end['messages'],
                     'fault_info': end['fault_info'], 'applied': end['applied'], 'loops': end['loops'],
                     'server_exceptions': end['server_exceptions'], 'detail': v['detail']}
